@@ -253,6 +253,11 @@ RecOK(r, h) == /\ Len(r.pid) = Len(h.recs) /\ Len(r.x) = Len(r.pid) /\ Len(r.y) 
                /\ \A i \in 1..Len(r.pid) : /\ r.pid[i] = h.recs[i].pid /\ r.x[i] = h.recs[i].x /\ r.y[i] = h.recs[i].y
                                            /\ (Dropped("Z") \/ r.z[i] = h.recs[i].z) /\ (Dropped("age") \/ r.age[i] = h.recs[i].age)
                                            /\ (Dropped("farm") \/ r.farm[i] = h.recs[i].farm)
+\* a time-typed instance variable (a per-row time stamp from the release file: row time + 3600 s x row id) is stored like the time
+\* coordinate; the harness has already added the file's reference time
+RowTime(id) == LET k == CHOOSE k \in 1..Len(S.table) : S.table[k].id = id IN S.table[k].t
+StampOK(r) == ~S.out.stamp \/ Dropped("farm") \/
+   (Len(r.stamp) = Len(r.pid) /\ \A i \in 1..Len(r.pid) : r.stamp[i] = RowTime(r.farm[i]) + 3600 * r.farm[i])
 \* names and numbers as module FileName prescribes for the configured stem (a warm start is configured with the next name of the chain)
 Proto == S.out.proto
 \* scalar forcing in a record (C06: the value the state held; C19 / C03 / C02: valid at the record's time and place, i.e. the
@@ -299,6 +304,7 @@ FilesBody(fs, all) ==           \* `all` (the records of all files in order) is 
                  Check("files.reference", \A k \in 1..Len(fs) : fs[k].ref = Ref(S.clock)),
                  Check("files.time", \A k \in 1..m : all[k].time = ClockTime(S.clock, hist[k].step)),
                  Check("files.records", \A k \in 1..m : RecOK(all[k], hist[k])),
+                 Check("files.time_typed_instance", \A k \in 1..Len(all) : StampOK(all[k])),
                  Check("files.scalar_is_state", \A k \in 1..m : ScalStateOK(all[k], hist[k])),
                  Check("files.scalar_valid_at_record", \A k \in 1..m : ScalValidOK(all[k], hist[k])),
                  Check("files.pvars", S.out.pvars => PvarsOK(fs)),
